@@ -94,9 +94,36 @@ func genSpec(r *mrand.Rand, id string, msgEnc string, nparts, nemb, natt int) ge
 	if r.Intn(6) == 0 {
 		s.Charset = gen.Pick(r, []string{"ISO-8859-1", "US-ASCII", "UTF-8"})
 	}
-	if r.Intn(7) == 0 {
+	if r.Intn(5) == 0 {
 		// a caller-defined boundary (never a line of the content: contents do not contain this token)
-		s.Boundary = gen.Pick(r, []string{"verif-Custom_Boundary.0123", "b", strings.Repeat("B", 66)})
+		// of every legal length class: RFC 2046 allows 1..70 characters, nested containers derive theirs from it
+		switch r.Intn(4) {
+		case 0:
+			s.Boundary = gen.Pick(r, []string{"verif-Custom_Boundary.0123", "b", strings.Repeat("B", 66)})
+		default:
+			n := gen.Pick(r, []int{1, 2, 20, 40, 56, 57, 58, 59, 60, 62, 64, 66, 67, 68, 69, 70})
+			const bchars = "ABCDEFGHIJKLMNOPQRSTUVWXYZabcdefghijklmnopqrstuvwxyz0123456789_-."
+			b := make([]byte, n)
+			for i := range b {
+				b[i] = bchars[r.Intn(len(bchars))]
+			}
+			// generated contents never hold the token "vbX0" at the start of a "--" line; short boundaries stay alphanumeric
+			if n >= 8 {
+				copy(b, "vbX0")
+				if r.Intn(3) == 0 {
+					// the boundary characters that are no token characters: the parameter has to be quoted
+					const special = "'()+,/:=? "
+					for k := 0; k < 1+r.Intn(3); k++ {
+						b[4+r.Intn(n-5)] = special[r.Intn(len(special))]
+					}
+				}
+			} else {
+				for i := range b {
+					b[i] = bchars[r.Intn(62)]
+				}
+			}
+			s.Boundary = string(b)
+		}
 	}
 	for i := 0; i < nparts; i++ {
 		p := gen.PartSpec{Type: "text/plain"}
